@@ -183,6 +183,7 @@ def run_property(prop, tier):
     replay_dir = os.path.join(VERIF, "replays", prop)
     all_names = []
     refuted = {}
+    cvc5_stats = {}
     if os.environ.get("PYVC_VERBOSE"):
         for spec, res in sorted(zip(specs, results), key=lambda x: -(x[1].get("wall") or 0)):
             print(f"  unit {res.get('unit')}: wall={res.get('wall', 0):.1f}s paths={res.get('paths')} "
@@ -229,6 +230,8 @@ def run_property(prop, tier):
                 obligations += 1
                 discharged += 1
                 by_backend[vc["backend"]] = by_backend.get(vc["backend"], 0) + 1
+                if vc.get("cvc5"):
+                    cvc5_stats[vc["cvc5"]] = cvc5_stats.get(vc["cvc5"], 0) + 1
                 continue
             if vc["verdict"] == "unknown":
                 obligations += 1
@@ -298,6 +301,7 @@ def run_property(prop, tier):
             "inlined_functions": sorted(inlined),
             "callee_contracts_used": sorted(used),
             "by_backend": by_backend,
+            "cvc5_recheck_of_z3_proofs": cvc5_stats,
             "solver_time_s": round(solver_time, 3),
             "paths": paths,
             "differential_runs": diff_runs, "differential_mismatches": diff_mismatch,
